@@ -39,35 +39,18 @@ pub fn take_world() -> Option<World> {
     WORLD.with(|c| c.borrow_mut().take())
 }
 
-// ---- OS thread migration: the run's top-level future is polled in phases, each phase on a fresh
-// OS thread; a `Migrate` op ends the current phase.
-static MIGRATE: std::sync::atomic::AtomicBool = std::sync::atomic::AtomicBool::new(false);
-thread_local! {
-    static MAIN_WAKER: RefCell<Option<std::task::Waker>> = const { RefCell::new(None) };
-}
-
-pub fn set_main_waker(wk: std::task::Waker) {
-    MAIN_WAKER.with(|c| *c.borrow_mut() = Some(wk));
-}
-
-/// Called by a client task: ask the driver to end this phase.
+// ---- OS thread migration (simcore::phased): the request flag and the driver's waker belong to the
+// run, not to a thread
 pub fn request_migration() {
-    MAIN_WAKER.with(|c| {
-        if let Some(wk) = c.borrow().as_ref() {
-            MIGRATE_TL.with(|m| m.set(true));
+    w(|w| {
+        w.migrate.0.store(true, std::sync::atomic::Ordering::SeqCst);
+        if let Some(wk) = w.migrate.1.lock().unwrap().as_ref() {
             wk.wake_by_ref();
         }
     });
-    let _ = &MIGRATE;
 }
 
-thread_local! {
-    static MIGRATE_TL: std::cell::Cell<bool> = const { std::cell::Cell::new(false) };
-}
-
-pub fn take_migration_request() -> bool {
-    MIGRATE_TL.with(|m| m.replace(false))
-}
+pub type MigrateCtl = std::sync::Arc<(std::sync::atomic::AtomicBool, std::sync::Mutex<Option<std::task::Waker>>)>;
 
 /// Access to the world of the run executing on this OS thread.
 pub fn w<R>(f: impl FnOnce(&mut World) -> R) -> R {
@@ -129,6 +112,7 @@ pub enum Act {
 }
 
 pub struct World {
+    pub migrate: MigrateCtl,
     pub trace_on: bool,
     pub trace: Vec<String>,
     pub hash: Hasher,
@@ -175,6 +159,7 @@ impl World {
         trace_on: bool,
     ) -> World {
         World {
+            migrate: std::sync::Arc::new((std::sync::atomic::AtomicBool::new(false), std::sync::Mutex::new(None))),
             trace_on,
             trace: Vec::new(),
             hash: Hasher::default(),
